@@ -329,6 +329,10 @@ def run(tier: str, seed: int) -> Report:
     # binding self-test: swap the task of one write into another caller's exchange
     good = next((t for i, t in enumerate(traces) if verdicts[i][0] == "ok" and len({e["task"] for e in t["ev"] if e["e"] == "W"}) >= 2), None)
     if good is None:
+        if rep.violations:
+            # the tree under test breaks the contract in every concurrent trace: report that, not the self-test
+            rep.extra["binding_selftest"] = "skipped: no accepted concurrent trace on this tree"
+            return rep
         raise Machinery("no accepted concurrent trace for the binding self-test")
     bad = json.loads(json.dumps(good))
     ws = [k for k, e in enumerate(bad["ev"]) if e["e"] == "W"]
